@@ -16,6 +16,7 @@ shape / mapping layout raises.
 from __future__ import annotations
 
 import io
+import json
 from fractions import Fraction
 
 import numpy as np
@@ -1020,8 +1021,17 @@ def run(ctx):
         section(_check_pm, ctx, idx, reqs, pending)
     section(_sc_cells, ctx, reqs, pending)
     section(_sc_random, ctx, reqs, pending)
+    _compare_all(ctx, reqs, pending)
+    if crashed:
+        raise crashed[0]
+
+
+def _compare_all(ctx, reqs, pending):
+    """the model's answers against what the implementation did, for every pending observation"""
     n_pairs = min(len(reqs), len(pending))
     reqs, pending = reqs[:n_pairs], pending[:n_pairs]
+    if not reqs:
+        return
     answers = ctx.model(reqs)
     if answers is None:
         return
@@ -1038,8 +1048,6 @@ def run(ctx):
         elif what == 'rwvm-apply':
             if 'proto_err' in ans or (impl == 'err') != ('err' in ans) or (impl != 'err' and ans.get('ok') != impl):
                 ctx.disagree('L0', case, impl, ans, 'RealWorldValueMapping.apply')
-    if crashed:
-        raise crashed[0]
 
 
 def _float_witness(ctx):
@@ -1053,7 +1061,7 @@ def _float_witness(ctx):
     m = RealWorldValueMapping('a', 'ea', codes.UCUM.NoUnits, (-10.0, 10.0), slope=2.0, intercept=1.0)
     pm = ParametricMap(src, arr, hd.UID(), 1, hd.UID(), 1, 'm', 'mm', '1', 'sn', False, [m], 0.5, 1.0)
     blob = _written(pm)
-    case = {'kind': 'pm', 'dtype': 'float32', 'witness': True}
+    case = {'kind': 'pm', 'dtype': 'float32', 'scenario': 'float'}
     for lazy in (False, True):
         tag = 'lazy' if lazy else 'eager'
         im = hd.imread(io.BytesIO(blob), lazy_frame_retrieval=lazy)
@@ -1075,11 +1083,11 @@ def _lut1_witness(ctx):
     st, out = _try(m.apply, arr[0])
     ctx.case(kind='rwvm-apply', outcome=st, mapping='lut')
     if st != 'ok' or not np.array_equal(np.asarray(out, dtype=np.float64), np.full((3, 4), 2.5)):
-        ctx.fail({'kind': 'rwvm-apply', 'witness': True, 'mapping': {'first': 7, 'last': 7, 'kind': 'lut'}, 'values': [7]},
+        ctx.fail({'kind': 'rwvm-apply', 'scenario': 'lut1', 'mapping': {'first': 7, 'last': 7, 'kind': 'lut'}, 'values': [7]},
                  out if st != 'ok' else 'differs', site='rwvm-apply')
     pm = ParametricMap(src, arr, hd.UID(), 1, hd.UID(), 1, 'm', 'mm', '1', 'sn', False, [m], 0.5, 1.0)
     blob = _written(pm)
-    case = {'kind': 'pm', 'dtype': 'uint8', 'witness': True, 'single_lut': True}
+    case = {'kind': 'pm', 'dtype': 'uint8', 'scenario': 'lut1', 'single_lut': True}
     for lazy in (False, True):
         tag = 'lazy' if lazy else 'eager'
         im = hd.imread(io.BytesIO(blob), lazy_frame_retrieval=lazy)
@@ -1090,22 +1098,61 @@ def _lut1_witness(ctx):
 
 
 def replay(ctx, case):
+    """Re-run one stored case (a pure function of seed, tier, stream and index) on the implementation; returns the oracle
+    failures of that case, or None when it passes on the current tree.  Failures that
+    belong to an OPEN known finding do not count -- except when the case is the stored witness of such a finding."""
     import hd_env  # noqa: F401
     import warnings
+    import contextlib
+    import io as _io
+    from framework import load_findings
     warnings.simplefilter('ignore')
     sub = type(ctx)(ctx.prop, ctx.tier, ctx.seed, 1, ctx.driver)
-    if case.get('kind') == 'pm-float-witness':
-        _float_witness(sub)
-    elif case.get('kind') == 'pm-lut1-witness':
-        _lut1_witness(sub)
-    elif case.get('kind') == 'pm' and 'idx' in case:
-        _check_pm(sub, case['idx'], [], [])
-    elif case.get('kind') == 'sc':
-        _check_sc(sub, case.get('label', 'replay'), case['dtype'], case['ba'], tuple(case['shape']), case['pi'], case['ts'], case['cs'],
-                  case['idx'], layout=case.get('layout', 'c'), big_values=case.get('big_values', False))
-    elif case.get('kind') == 'pm-refusal':
-        _pm_refusals(sub)
-    return sub.failures[:3] or None
+    # implementation side only: a replay does not regenerate / rebuild the model, which may stem from another tree
+    sub.model_available = False
+    reqs, pending = [], []
+    kind = case.get('kind')
+    # the stored witness of an OPEN finding (findings/C19.json): its failures are what must reproduce
+    witness = kind == 'pm-float-witness' or case.get('label') == 'witness' or case.get('scenario') == 'float'
+    with contextlib.redirect_stdout(_io.StringIO()):
+        if kind == 'pm-float-witness':
+            _float_witness(sub)
+        elif kind == 'pm-lut1-witness':
+            _lut1_witness(sub)
+        elif case.get('scenario') == 'float':
+            _float_witness(sub)
+        elif case.get('scenario') == 'lut1':
+            _lut1_witness(sub)
+        elif kind == 'pm' and 'idx' in case:
+            _check_pm(sub, case['idx'], reqs, pending)
+        elif kind == 'sc':
+            _check_sc(sub, case.get('label', 'replay'), case['dtype'], case['ba'], tuple(case['shape']), case['pi'], case['ts'],
+                      case['cs'], case['idx'], layout=case.get('layout', 'c'), big_values=case.get('big_values', False),
+                      reqs=reqs, pending=pending)
+        elif kind == 'pm-refusal':
+            _pm_refusals(sub, reqs, pending)
+        elif kind in ('rwvm-init', 'rwvm-apply'):
+            _mapping_cells(sub, reqs, pending)
+        else:
+            return None
+        _compare_all(sub, reqs, pending)
+
+    def same(c):
+        """does a failure / disagreement of the re-run belong to the stored case?"""
+        if witness or case.get('scenario'):
+            return True
+        if not isinstance(c, dict) or c.get('kind') != kind:
+            return False
+        if kind in ('pm', 'sc') and 'idx' in case:
+            return c.get('idx') == case.get('idx')
+        if kind in ('rwvm-init', 'rwvm-apply', 'pm-refusal'):
+            strip = lambda d: {k: v for k, v in d.items() if k not in ('path', 'frame')}   # noqa: E731
+            return json.dumps(strip(c), sort_keys=True, default=repr) == json.dumps(strip(case), sort_keys=True, default=repr)
+        return True
+    open_findings = [] if witness else [f for f in load_findings() if f.get('property') == 'C19' and f.get('status') == 'open']
+    hits = [f for f in sub.failures if same(f['case']) and attribute(f, open_findings) is None]
+    hits += [d for d in sub.disagreements if same(d['case'])]
+    return hits[:3] or None
 
 
 def attribute(failure, open_findings):
